@@ -211,12 +211,16 @@ type genOpts struct {
 	manyDec     bool
 }
 
+// the last names of every type repeat a type name inside a later segment (FixedAssets, InterestIncome, ...): names
+// a chart of accounts really has, and the ones on which a string operation on the whole name goes wrong where one
+// on the first segment is meant (seeded change C02c-swaptype-replaceall rewrote every occurrence of the type name
+// in --remap and was missed with the plain names)
 var accountPool = map[string][]string{
-	"Assets":      {"Assets:Bank", "Assets:Bank:Checking", "Assets:Bank:Savings", "Assets:Portfolio", "Assets:Cash", "Assets:Broker:Acc1", "Assets:Receivables", "Assets:Broker:Acc2:Sub:Leaf"},
-	"Liabilities": {"Liabilities:CreditCard", "Liabilities:Mortgage", "Liabilities:Loans:Car"},
-	"Equity":      {"Equity:Equity", "Equity:Opening", "Equity:Valuation:Misc"},
-	"Income":      {"Income:Salary", "Income:Dividends", "Income:Interest:Bank", "Income:Portfolio"},
-	"Expenses":    {"Expenses:Rent", "Expenses:Groceries", "Expenses:Fees", "Expenses:Taxes:Federal", "Expenses:Insurance", "Expenses:Taxes:Cantonal:Direct:Y2020"},
+	"Assets":      {"Assets:Bank", "Assets:Bank:Checking", "Assets:Bank:Savings", "Assets:Portfolio", "Assets:Cash", "Assets:Broker:Acc1", "Assets:Receivables", "Assets:Broker:Acc2:Sub:Leaf", "Assets:FixedAssets:Machinery", "Assets:LiabilitiesPrepaid"},
+	"Liabilities": {"Liabilities:CreditCard", "Liabilities:Mortgage", "Liabilities:Loans:Car", "Liabilities:CurrentLiabilities:Tax"},
+	"Equity":      {"Equity:Equity", "Equity:Opening", "Equity:Valuation:Misc", "Equity:OwnersEquity"},
+	"Income":      {"Income:Salary", "Income:Dividends", "Income:Interest:Bank", "Income:Portfolio", "Income:InterestIncome"},
+	"Expenses":    {"Expenses:Rent", "Expenses:Groceries", "Expenses:Fees", "Expenses:Taxes:Federal", "Expenses:Insurance", "Expenses:Taxes:Cantonal:Direct:Y2020", "Expenses:TravelExpenses:Hotel"},
 }
 var typeOrder = []string{"Assets", "Liabilities", "Equity", "Income", "Expenses"}
 
@@ -336,6 +340,13 @@ func genJournal(r *rng, o genOpts) Journal {
 						j = append(j, Dir{Kind: 'P', Date: dateStr(dt), Com: c, Price: fmt.Sprintf("%.4f", float64(r.rangeInt(50, 30000))/100), Target: alt})
 						continue
 					}
+				}
+				if k > 0 && r.chance(6) {
+					// a hyperinflation quote: a price above 10^8, whose reciprocal (stored for the reverse direction)
+					// truncates to 0 at 8 places; later quotes of the pair follow at ordinary or huge levels (seeded change
+					// C03c-skip-zero-reciprocal kept the stale reverse price in that case and was missed without these)
+					j = append(j, Dir{Kind: 'P', Date: dateStr(dt), Com: c, Price: fmt.Sprintf("%d.%02d", r.rangeInt(100000001, 90000000000), r.intn(100)), Target: target})
+					continue
 				}
 				if r.chance(20) && k > 0 {
 					// inverse declaration
